@@ -5,6 +5,7 @@ import (
 	"html/template"
 	"log"
 	"net/http"
+	"sync"
 )
 
 /*
@@ -28,6 +29,11 @@ const TEMPLATE_NAME_HELP = "ig-parser-user-guide.html"
 //
 //go:embed templates/*
 var files embed.FS
+
+/*
+Serializes conversions (see converterHandler), since output options are held in process-wide variables.
+*/
+var conversionLock sync.Mutex
 
 /*
 Dummy function in case logging is not activated
